@@ -9,7 +9,7 @@ HALF = Fraction(1, 200)
 BOUNDS = {
     "quick": "evo_aspirate / evo_dispense from an arbitrary valid state of a plate 4x2 or a trough with 4 virtual rows x 2 columns: n<=2 wells (n=3 on the plate with per-tip volumes and tips 1,2,3) chosen from "
              "{A01,B01,C01,A02} in any order with repeats, n tips each an unbounded symbolic int, volumes scalar or per tip (symbolic), grid / site / arm "
-             "unbounded symbolic ints; evo_wash with all thirteen parameters symbolic (ints unbounded, volumes real) and tips of length 1..2",
+             "unbounded symbolic ints; the liquid class as an abstract string (length 0..40, may contain ';'); evo_wash with all thirteen parameters symbolic (ints unbounded, volumes real) and tips of length 1..2",
     "thorough": "n<=3 wells / tips, Tip members mixed with ints, plate 8x2",
 }
 OUTSIDE = "more wells/tips per command, other geometries, labware with more than 2 columns"
@@ -29,6 +29,8 @@ def shards(tier):
     for n in (1, 2):
         out.append(dict(part="wash", n=n))
     out.append(dict(part="pos", cmd="evo_aspirate"))
+    for cmd in ("evo_aspirate", "evo_dispense"):
+        out.append(dict(part="cmd", cmd=cmd, kind="plate", n=1, volmode="scalar", symlc=True, tips_fixed=True))
     return out
 
 
@@ -76,8 +78,9 @@ def scenario(ctx, p):
     else:
         per = [ctx.real(f"x{i}", 0, common.BIG) for i in range(n)]
         vols = list(per)
-    c.update(wells=wells, tips=tips, vols=vols, per=per, grid=30, site=2, arm=0)
-    getattr(wl, p["cmd"])(lab, wells, (30, 2), tips, vols, "LC", arm=0)
+    lc = ctx.absstr("liquid_class") if p.get("symlc") else "LC"
+    c.update(wells=wells, tips=tips, vols=vols, per=per, grid=30, site=2, arm=0, lc=lc)
+    getattr(wl, p["cmd"])(lab, wells, (30, 2), tips, vols, lc, arm=0)
     return wl
 
 
@@ -116,8 +119,14 @@ def judge(ctx, p, outcome):
     lc = evoscript.unq(args[1])
     slots = [evoscript.unq(a) for a in args[2:14]]
     grid, site, arm = ctx.int_field(args[14]), ctx.int_field(args[15]), ctx.int_field(args[19])
-    if lc != "LC":
-        ctx.violate("C13: liquid class not carried")
+    given = c.get("lc", "LC")
+    if lc != str.__str__(given):
+        ctx.violate("C13: the command does not name the given liquid class")
+    if ctx.symbolic and hasattr(given, "flag"):
+        from symex import core
+        ctx.prove(ctx.not_(core.SBool(ctx, given.flag(";"))), "C13: a separator inside the liquid class was accepted")
+    elif ";" in given:
+        ctx.violate("C13: a separator inside the liquid class was accepted")
     ctx.prove(ctx.all_of([ctx.eq(grid, c["grid"]), ctx.eq(site, c["site"] - 1), ctx.eq(arm, c["arm"])]), "C13: grid / zero-based site / arm fields differ from the arguments")
     ctx.prove(ctx.all_of([ctx.le(1, c["grid"]), ctx.le(c["grid"], 67), ctx.le(1, c["site"]), ctx.le(c["site"], 128), ctx.any_of([ctx.eq(c["arm"], 0), ctx.eq(c["arm"], 1)])]),
               "C13: out-of-range grid / site / arm was accepted")
